@@ -293,14 +293,17 @@ func TestC01(t *testing.T) {
 				}
 				// iterative deepening: an execution that was not cut at global depth d is, step for
 				// step, the execution at any larger depth, so the cheapest uncut run is the verdict
+				usedDepth := 4 // the request depth of the run that is judged (a replay must use the same one)
 				o := w.RunCheck(w.Rows(rowsT), w.Internal(q), vsched.Config{FastBase: true}, RunOpt{ReqDepth: 4, PageSize: ps})
 				// (an input whose dependency graph has a cycle through a rewrite edge is cut at every
 				// depth - the engine has no cycle detection there - so deepening it only burns time)
 				if o.Cut && !ref.RewriteCycle {
 					o = w.RunCheck(w.Rows(rowsT), w.Internal(q), vsched.Config{FastBase: true}, RunOpt{ReqDepth: 8, PageSize: ps})
+					usedDepth = 8
 				}
 				if o.Cut && !ref.RewriteCycle && ev.Thorough() {
 					o = w.RunCheck(w.Rows(rowsT), w.Internal(q), vsched.Config{FastBase: true}, RunOpt{PageSize: ps})
+					usedDepth = 0 // (the global limit)
 				}
 				if ps != 0 {
 					cov.pagedCases++
@@ -341,7 +344,7 @@ func TestC01(t *testing.T) {
 					}
 				}
 				if bad != "" && len(cands) < 300 {
-					cands = append(cands, &Cand{Cfg: cfg.Ref, Tuples: rowsT, Query: q, Bound: 0, Depth: w.Depth, Width: w.Width, ReqDepth: 8, PageSize: ps, Oracle: "equals-ref",
+					cands = append(cands, &Cand{Cfg: cfg.Ref, Tuples: rowsT, Query: q, Bound: 0, Depth: w.Depth, Width: w.Width, ReqDepth: usedDepth, PageSize: ps, Oracle: "equals-ref",
 						Sig: sig, What: fmt.Sprintf("%s on {%s | %s | q=%s} (base schedule, listing page size %d)", bad, cfg.Name, tuplesStr(rowsT), q, map[bool]int{true: 100, false: ps}[ps == 0])})
 				}
 			}
